@@ -79,7 +79,9 @@ DISPOSE = [
     ("in-list", [op("EMPTY_LIST"), op("BINPUT", 1), op("POP"), op("TUPLE1")]),
     ("built", [op("EMPTY_DICT"), u("k"), op("BININT1", 1), op("SETITEM"), op("BUILD")]),
 ]
-BEFORE = [("", []), ("data-before", [op("BININT1", 1), u("benign"), op("TUPLE2"), op("POP")])]
+BEFORE = [("", []), ("data-before", [op("BININT1", 1), u("benign"), op("TUPLE2"), op("POP")]),
+          # a benign object updated with an empty batch and discarded: a no-op for the VM, whatever the object is
+          ("empty-setitems-before", G("collections", "OrderedDict") + [op("EMPTY_TUPLE"), op("REDUCE"), op("MARK"), op("SETITEMS"), op("POP")])]
 AFTER = [("", []), ("data-after", [op("MARK"), op("BININT1", 2), u("more"), op("LIST"), op("TUPLE2")])]
 
 fails, n_programs, n_skipped = [], 0, 0
